@@ -691,8 +691,12 @@ class SourceHandler:
             self._params.cond_code_eof = ConditionCode.NO_ERROR
             self.states.step = TransactionStep.SENDING_EOF
         elif self._params.fp.metadata_only:
-            # Special case: Metadata Only, no EOF required.
-            if self._params.closure_requested:
+            # Special case: Metadata Only, no EOF required. In acknowledged mode, the receiver
+            # always sends a Finished PDU which needs to be acknowledged.
+            if (
+                self._params.closure_requested
+                or self.transmission_mode == TransmissionMode.ACKNOWLEDGED
+            ):
                 self.states.step = TransactionStep.WAITING_FOR_FINISHED
             else:
                 self.states.step = TransactionStep.NOTICE_OF_COMPLETION
